@@ -165,3 +165,91 @@ Proof.
     destruct (unregister path_eqb r m) as [m1|e]; [|reflexivity]. apply sv_rest_eq.
   - apply sv_rest_eq.
 Qed.
+
+(* ---- Manager.load ------------------------------------------------------------------------------ *)
+Definition load_task (item : path * expr * list path * list path) : dtask :=
+  let '(lhs, rhs, deps_order, targets_order) := item in mk_expr_task lhs rhs deps_order targets_order.
+
+Theorem src_load_eq (s : dstate) ow dump : forall (m : dmgr) tr,
+  src_load dump ow (m, s, tr) =
+  let '(m', s', out) := step m s (MLoad (map load_task dump) ow) in ((m', s', tr), res_of (o_err out)).
+Proof.
+  induction dump as [|[[[lhs rhs] dord] tord] dump IH]; intros m tr; [reflexivity|].
+  cbn [map]. set (t := load_task (lhs, rhs, dord, tord)).
+  change (step m s (MLoad (t :: map load_task dump) ow)) with
+      (if is_task (t_id t) m then
+         if ow then match unregister path_eqb (t_id t) m with
+                    | Err e => (m, s, mkOut (Some e) [])
+                    | Ok m1 => match register path_eqb t m1 with
+                               | Err e => (m1, s, mkOut (Some e) [])
+                               | Ok m2 => step m2 s (MLoad (map load_task dump) ow)
+                               end
+                    end
+         else step m s (MLoad (map load_task dump) ow)
+       else match register path_eqb t m with
+            | Err e => (m, s, mkOut (Some e) [])
+            | Ok m2 => step m2 s (MLoad (map load_task dump) ow)
+            end).
+  unfold src_load. cbn [d_for_each]. fold (src_load dump ow).
+  unfold dseq at 1. unfold dbind at 1. unfold d_ifelse, d_in_tasks. cbn [fst].
+  change (t_id t) with lhs. rewrite src_exprtask_init_eq. change (mk_expr_task lhs rhs dord tord) with t.
+  destruct (is_task lhs m).
+  - destruct ow.
+    + unfold dseq, dbind, d_call. rewrite (src_unregister_eq path_eqb path_eqb_spec).
+      destruct (unregister path_eqb lhs m) as [m1|e]; [|reflexivity].
+      rewrite (src_register_eq path_eqb). destruct (register path_eqb t m1) as [m2|e]; [|reflexivity].
+      apply IH.
+    + unfold dret. apply IH.
+  - unfold d_call. rewrite (src_register_eq path_eqb). destruct (register path_eqb t m) as [m2|e]; [|reflexivity].
+    apply IH.
+Qed.
+
+(* ---- mk_fun / gen_fun ---------------------------------------------------------------------------- *)
+Definition is_expr_task (t : dtask) : Prop := exists e, t_act t = AExpr e.
+
+Lemma assign_lines_run args : forall pre rest (m : dmgr) s tr,
+  run_lines (assign_lines (length pre) (map fst args) ++ rest) (pre ++ map snd args) (m, s, tr) =
+  match arg_writes s args with
+  | (s1, Some e) => ((m, s1, tr), Err e)
+  | (s1, None) => run_lines rest (pre ++ map snd args) (m, s1, tr)
+  end.
+Proof.
+  induction args as [|[p v] args IH]; intros pre rest m s tr; cbn [map fst snd assign_lines app arg_writes]; [reflexivity|].
+  cbn [run_lines].
+  assert (Hn : nth_error (pre ++ v :: map snd args) (length pre) = Some v).
+  { rewrite nth_error_app2 by lia. now rewrite Nat.sub_diag. }
+  rewrite Hn. unfold dseq, dbind, d_set_value_ref.
+  destruct (dwrite s p v) as [s1|e]; [|reflexivity].
+  specialize (IH (pre ++ [v]) rest m s1 tr).
+  rewrite app_length in IH. cbn [length] in IH. rewrite Nat.add_1_r, <- app_assoc in IH. cbn [app] in IH.
+  exact IH.
+Qed.
+
+Lemma task_lines_run values tl : forall (m : dmgr) s tr, Forall is_expr_task tl ->
+  run_lines (map LTask tl) values (m, s, tr) =
+  let '(s2, tr2, er) := run_tasks tl s in ((m, s2, tr ++ tr2), res_of er).
+Proof.
+  induction tl as [|t tl IH]; intros m s tr Hf; cbn [map run_lines run_tasks].
+  - unfold dret. now rewrite app_nil_r.
+  - inversion Hf as [|x l [e He] Hl]; subst. unfold exec. rewrite He. cbn [do_writes].
+    unfold dbind, d_get_value. destruct (eval (d_st s) e) as [v|]; [|now rewrite app_nil_r].
+    unfold dseq, dbind, d_set_value_ref. destruct (dwrite s (t_id t) v) as [s1|er]; [|now rewrite app_nil_r].
+    rewrite (IH m s1 (tr ++ [t_id t]) Hl). destruct (run_tasks tl s1) as [[s2 tr2] er].
+    now rewrite <- app_assoc.
+Qed.
+
+Theorem src_gen_fun_eq (m : dmgr) s args sd so :
+  (forall tl m', find_tasks path_eqb m sd so = Ok (tl, m') -> Forall is_expr_task tl) ->
+  src_gen_fun_call (map fst args) (map snd args) sd so (m, s, []) =
+  let '(m', s', out) := step m s (MGenFun args sd so) in ((m', s', o_trace out), res_of (o_err out)).
+Proof.
+  intros Hex. unfold src_gen_fun_call, dbind, d_query, src_mk_fun. cbn [step]. unfold mk_fun.
+  change (fold_left d_deps_into (map fst args) []) with (args_start (map fst args)).
+  destruct (same_set path_eqb sd (args_start (map fst args))); [|reflexivity].
+  rewrite src_find_tasks_eq. destruct (find_tasks path_eqb m sd so) as [[tl m']|e] eqn:F; [|reflexivity].
+  unfold exec_fun.
+  pose proof (assign_lines_run args [] (map LTask tl) m' s []) as H. cbn [length app] in H. rewrite H.
+  destruct (arg_writes s args) as [s1 [e|]]; [reflexivity|].
+  rewrite (task_lines_run _ tl m' s1 [] (Hex tl m' eq_refl)).
+  destruct (run_tasks tl s1) as [[s2 tr2] er]. reflexivity.
+Qed.
